@@ -9,7 +9,10 @@ use crate::{
     defined::Freq,
     firmware::{
         cpu::GainSTMMode,
-        fpga::{LoopBehavior, SamplingConfig, Segment, TransitionMode},
+        fpga::{
+            GAIN_STM_BUF_SIZE_MAX, LoopBehavior, STM_BUF_SIZE_MIN, SamplingConfig, Segment,
+            TransitionMode,
+        },
         operation::GainSTMOp,
     },
 };
@@ -174,8 +177,14 @@ impl<T: GainSTMGenerator, C: Into<STMConfig> + Debug> DatagramL for GainSTM<T, C
         loop_behavior: LoopBehavior,
     ) -> Result<Self::G, Self::Error> {
         let size = self.gains.len();
+        // Validate here, before any frame is built: an operation of an empty sequence is already
+        // "done" and would never be packed (and validated) at all.
+        if !(STM_BUF_SIZE_MIN..=GAIN_STM_BUF_SIZE_MAX).contains(&size) {
+            return Err(AUTDDriverError::GainSTMSizeOutOfRange(size));
+        }
         let stm_config: STMConfig = self.config.into();
         let sampling_config = stm_config.into_sampling_config(size)?;
+        sampling_config.division()?;
         let GainSTMOption { mode } = self.option;
         let gains = self.gains;
         Ok(GainSTMOperationGenerator {
